@@ -132,7 +132,7 @@ reg(
 reg(
     "C20",
     "fault enumeration: committed table of entry points x single-field corruptions x factorisations, each executed through construction + first use; outcome raised vs produced-numbers; warnings captured and matched against the remedy",
-    "All 179 table rows are executed on every run (exhaustive over the table): prior constructors (coefficient container, "
+    "All 203 table rows are executed on every run (exhaustive over the table): prior constructors (coefficient container, "
     "exactness flags, output scale), diffuse priors (std container), constraint constructors (plain functions / wrong "
     "description types), both losses (noise container, posterior type), residual error estimate with jet-lifted constraints, "
     "lift orders, exponential-prior order, ensemble size, Taylor routines, Jacobian handler inputs, and ten strategy/routine "
